@@ -36,6 +36,35 @@ _fast_signal_names()
 MAX_ALLOC_ITERS = 40000      # histories whose first-fit loop would run longer are not generated
 
 
+class HistoryTimeout(Exception):
+    pass
+
+
+@contextlib.contextmanager
+def time_limit(seconds):
+    """A request that does not return (e.g. a request loop that no longer exhausts the table) is reported as a
+    crash of that operation instead of hanging the check."""
+    import signal
+
+    def handler(signum, frame):
+        raise HistoryTimeout("no answer within %ss" % seconds)
+
+    try:
+        old = signal.signal(signal.SIGALRM, handler)
+    except ValueError:          # not in the main thread: run unprotected
+        yield
+        return
+    signal.setitimer(signal.ITIMER_REAL, seconds)
+    try:
+        yield
+    finally:
+        signal.setitimer(signal.ITIMER_REAL, 0)
+        signal.signal(signal.SIGALRM, old)
+
+
+OP_TIME_LIMIT = 5.0
+
+
 def win(size):
     """Smallest power of two >= size (>= 1): the decoded window of a region, computed independently of migen."""
     p = 1
@@ -130,23 +159,24 @@ class BusRun:
         bus = self.bus
         snap = self._snapshot()
         try:
-            k = op[0]
-            if k == "R":
-                _, n, io, o, sz, c, l, d = op
-                bus.add_region("r%d" % n, self._region(io, o, sz, c, l, d))
-            elif k == "S":
-                n = op[1]
-                reg = None
-                if len(op) > 2:
-                    _, n, o, sz, c, l, d = op
-                    reg = self._region(False, o, sz, c, l, d)
-                bus.add_slave("r%d" % n, iface(self.dw, max(self.aw - self.sh, 1), ("s", n)), reg)
-            elif k == "M":
-                bus.add_master("r%d" % op[1], iface(self.dw, max(self.aw - self.sh, 1), ("m", op[1])))
-            elif k == "C":
-                bus.io_regions_check = bool(op[1])
-            else:
-                raise ValueError(op)
+            with time_limit(OP_TIME_LIMIT):
+                k = op[0]
+                if k == "R":
+                    _, n, io, o, sz, c, l, d = op
+                    bus.add_region("r%d" % n, self._region(io, o, sz, c, l, d))
+                elif k == "S":
+                    n = op[1]
+                    reg = None
+                    if len(op) > 2:
+                        _, n, o, sz, c, l, d = op
+                        reg = self._region(False, o, sz, c, l, d)
+                    bus.add_slave("r%d" % n, iface(self.dw, max(self.aw - self.sh, 1), ("s", n)), reg)
+                elif k == "M":
+                    bus.add_master("r%d" % op[1], iface(self.dw, max(self.aw - self.sh, 1), ("m", op[1])))
+                elif k == "C":
+                    bus.io_regions_check = bool(op[1])
+                else:
+                    raise ValueError(op)
             v = "ok"
         except SoCError:
             envshim.quiet_stderr()
@@ -643,12 +673,13 @@ class LocRun:
         h = self.h
         snap = (dict(h.locs), getattr(h, "enabled", True))
         try:
-            if op[0] == "A":
-                h.add("l%d" % op[1], op[2], use_loc_if_exists=bool(op[3]))
-            elif op[0] == "P":
-                h.address_map("l%d" % op[1], None)
-            elif op[0] == "E":
-                h.enable()
+            with time_limit(OP_TIME_LIMIT):
+                if op[0] == "A":
+                    h.add("l%d" % op[1], op[2], use_loc_if_exists=bool(op[3]))
+                elif op[0] == "P":
+                    h.address_map("l%d" % op[1], None)
+                elif op[0] == "E":
+                    h.enable()
             v = "ok"
         except SoCError:
             envshim.quiet_stderr()
@@ -803,6 +834,21 @@ class CmRun:
             self.granted_objs.append(o)
 
     def apply(self, op):
+        try:
+            with time_limit(OP_TIME_LIMIT):
+                return self._apply(op)
+        except HistoryTimeout:
+            self.outs.append("crash:HistoryTimeout")
+            if self.alarm is None:
+                self.alarm = "%r did not return within %ss" % (list(op), OP_TIME_LIMIT)
+            return self.outs[-1]
+        except MemoryError:
+            self.outs.append("crash:MemoryError")
+            if self.alarm is None:
+                self.alarm = "%r exhausted memory" % (list(op),)
+            return self.outs[-1]
+
+    def _apply(self, op):
         cm = self.cm
         before = len(cm.matched)
         try:
@@ -953,8 +999,12 @@ def run_cm_history(table, ops):
 # chunk worker (one process handles one chunk of histories of one kind)
 def work_chunk(args):
     kind, seed, count, known = args
-    import logging
+    import logging, resource
     logging.disable(logging.CRITICAL)
+    try:        # a broken request loop must not eat the machine
+        resource.setrlimit(resource.RLIMIT_AS, (6 << 30, 6 << 30))
+    except Exception:
+        pass
     rng = random.Random(seed)
     out = []
     for _ in range(count):
